@@ -89,7 +89,41 @@ class C06(Cfg):
         lib.sh([dv, "gen", "--seed", str(seed), "--n", str(n), "--out", p], check=True)
         q = os.path.join(work, "requests.ops")
         lib.sh([dv, "gen-oracle", "--seed", str(seed), "--n", str(m), "--out", q], check=True)
-        return [("pairs seed=%d n=%d" % (seed, n), p, False), ("signing-requests seed=%d n=%d" % (seed, m), q, False)]
+        st = os.path.join(work, "store.ops")
+        self.store_ops(seed, 120 if tier == "quick" else 3000, st)
+        return [("pairs seed=%d n=%d" % (seed, n), p, False), ("signing-requests seed=%d n=%d" % (seed, m), q, False),
+                ("stored rows replaced by another author seed=%d" % seed, st, False)]
+
+    @staticmethod
+    def store_ops(seed, n, path):
+        """`store` ops: a row / reference is written, then a second version with the same key — another author, another
+        date, other content — is written over it through the real `write`; what is read back must be the second version
+        and must verify. Fields stay inside what `sign()` accepts (non-empty entity / label, JSON object)."""
+        import random
+        r = random.Random(seed * 7919 + 11)
+        hx = lambda b: bytes(b).hex()
+        uid = lambda: hx(r.randrange(256) for _ in range(16))
+        word = lambda: hx(r.choice(b"abcdefgh0123") for _ in range(1 + r.randrange(6)))
+        with open(path, "w") as f:
+            for i in range(n):
+                f.write("case id=%d\n" % i)
+                s1 = r.randrange(4)
+                s2 = r.choice([s1, r.randrange(4), (s1 + 1) % 4])
+                if r.randrange(2):
+                    src, dst, lab = uid(), uid(), word()
+                    ent1 = word(); ent2 = r.choice([ent1, word()])
+                    c1 = r.randrange(1, 10 ** 12); c2 = r.choice([c1, c1 + 1, r.randrange(1, 10 ** 12)])
+                    f.write("store ka=edge kb=edge signer=%d signer2=%d a.src=%s a.src_entity=%s a.label=%s a.dest=%s a.cdate=%d "
+                            "b.src=%s b.src_entity=%s b.label=%s b.dest=%s b.cdate=%d\n" % (s1, s2, src, ent1, lab, dst, c1, src, ent2, lab, dst, c2))
+                else:
+                    nid, ent = uid(), word()
+                    room1 = r.choice(["-", uid()]); room2 = r.choice([room1, "-", uid()])
+                    c = r.randrange(1, 10 ** 12); m1 = c + r.randrange(1000); m2 = r.choice([m1, m1 + 1, m1 + r.randrange(10 ** 6)])
+                    js = lambda: r.choice(["-", hx(b"{}"), hx(('{"32":"%s"}' % "".join(r.choice("abcxyz") for _ in range(r.randrange(8)))).encode())])
+                    bn = lambda: r.choice(["-", "-", hx(r.randrange(256) for _ in range(r.randrange(6)))])
+                    f.write("store ka=node kb=node signer=%d signer2=%d a.id=%s a.room_id=%s a.cdate=%d a.mdate=%d a._entity=%s a._json=%s a._binary=%s "
+                            "b.id=%s b.room_id=%s b.cdate=%d b.mdate=%d b._entity=%s b._json=%s b._binary=%s\n" % (
+                                s1, s2, nid, room1, c, m1, ent, js(), bn(), nid, room2, c, m2, ent, js(), bn()))
 
     def nontrivial(self, ops, outs):
         return any(o.split(" ")[-1] in ("accept", "reject") for o in outs[1:])
